@@ -290,11 +290,12 @@ theorem wsToLongLoop_digits (ds w2 : List Nat) (hds : ∀ c ∈ ds, isDigit c = 
 def numeralString (w1 : List Nat) (neg : Bool) (ds w2 : List Nat) : List Nat :=
   w1 ++ (if neg then [cMinus] else []) ++ ds ++ w2
 
-theorem fast_path (threshold : Nat) (w1 : List Nat) (neg : Bool) (ds w2 : List Nat)
+theorem fast_path_K (keep : Bool) (threshold : Nat) (w1 : List Nat) (neg : Bool) (ds w2 : List Nat)
     (h1 : ∀ c ∈ w1, isWs c = true) (hds : ∀ c ∈ ds, isDigit c = true) (hne : ds ≠ [])
     (h2 : ∀ c ∈ w2, isWs c = true) (hlen : (numeralString w1 neg ds w2).length < threshold) :
-    toDoubleT threshold (numeralString w1 neg ds w2) =
-      Dbl.ofInt (if neg then -(natOfDigits ds : Int) else (natOfDigits ds : Int)) := by
+    toDoubleK keep threshold (numeralString w1 neg ds w2) =
+      (if keep && ((if neg then -(natOfDigits ds : Int) else (natOfDigits ds : Int)) == 0) then Dbl.zero neg
+       else Dbl.ofInt (if neg then -(natOfDigits ds : Int) else (natOfDigits ds : Int))) := by
   obtain ⟨d0, dt, rfl⟩ : ∃ d0 dt, ds = d0 :: dt := by
     cases ds with
     | nil => exact absurd rfl hne
@@ -381,13 +382,26 @@ theorem fast_path (threshold : Nat) (w1 : List Nat) (neg : Bool) (ds w2 : List N
     · simp only [if_true, List.cons_append, List.nil_append, List.head?_cons, beq_self_eq_true, List.drop_succ_cons, List.drop_zero]
       rw [show ((0 : Nat) : Int) = 0 from rfl] at hloop
       rw [← List.cons_append, hloop]; rfl
-  unfold toDoubleT
+  have hhead : (((numeralString w1 neg (d0 :: dt) w2).dropWhile isWs).head? == some cMinus) = neg := by
+    rw [hdrop]
+    cases neg
+    · simp [isDigit_ne_minus d0 hd0]
+    · simp
+  unfold toDoubleK
   simp only [htake]
   have hne2 : (numeralString w1 neg (d0 :: dt) w2).isEmpty = false := by
     simp [numeralString]
   simp only [hne2, Bool.false_eq_true, if_false, hv2, Bool.not_true]
-  unfold convertHelper
-  simp only [Bool.not_false, Bool.true_and, hlen, decide_true, if_true, hlong]
+  unfold convertHelperK
+  simp only [Bool.not_false, Bool.true_and, hlen, decide_true, if_true, hlong, hhead]
+
+theorem fast_path (threshold : Nat) (w1 : List Nat) (neg : Bool) (ds w2 : List Nat)
+    (h1 : ∀ c ∈ w1, isWs c = true) (hds : ∀ c ∈ ds, isDigit c = true) (hne : ds ≠ [])
+    (h2 : ∀ c ∈ w2, isWs c = true) (hlen : (numeralString w1 neg ds w2).length < threshold) :
+    toDoubleT threshold (numeralString w1 neg ds w2) =
+      Dbl.ofInt (if neg then -(natOfDigits ds : Int) else (natOfDigits ds : Int)) := by
+  have := fast_path_K false threshold w1 neg ds w2 h1 hds hne h2 hlen
+  simpa [toDoubleT] using this
 
 
 theorem bodySpec_digits (s2 : List Nat) (h : bodySpec s2 = true) :
@@ -413,9 +427,9 @@ theorem bodySpec_digits (s2 : List Nat) (h : bodySpec s2 = true) :
     · simp only [hc, if_false, Bool.and_eq_true] at h
       have := h.1; simp at this; simp [this]
 
-theorem atof_path (threshold : Nat) (s : List Nat) (h0 : ∀ c ∈ s, c ≠ 0) (hm : matchesNumber s = true)
+theorem atof_path_K (keep : Bool) (threshold : Nat) (s : List Nat) (h0 : ∀ c ∈ s, c ≠ 0) (hm : matchesNumber s = true)
     (hslow : (doValidate2 s).2 = true ∨ threshold ≤ s.length) :
-    toDoubleT threshold s = toDoubleSpec s := by
+    toDoubleK keep threshold s = toDoubleSpec s := by
   have htake : s.takeWhile (· ≠ 0) = s := by
     clear hm hslow
     induction s with
@@ -430,13 +444,13 @@ theorem atof_path (threshold : Nat) (s : List Nat) (h0 : ∀ c ∈ s, c ≠ 0) (
     | cons _ _ => rfl
   have hvalid : (doValidate2 s).1 = true := by
     have := doValidate_eq_matchesNumber s; unfold doValidate at this; rw [this]; exact hm
-  have hconv : convertHelper threshold s (doValidate2 s).2 = atofModel (s.dropWhile isWs) := by
-    unfold convertHelper
+  have hconv : convertHelperK keep threshold s (doValidate2 s).2 = atofModel (s.dropWhile isWs) := by
+    unfold convertHelperK
     rcases hslow with h | h
     · simp [h]
     · have : ¬ s.length < threshold := by omega
       simp [this]
-  unfold toDoubleT
+  unfold toDoubleK
   simp only [htake, hne, Bool.false_eq_true, if_false]
   cases hd : doValidate2 s with
   | mk a b =>
@@ -461,5 +475,9 @@ theorem atof_path (threshold : Nat) (s : List Nat) (h0 : ∀ c ∈ s, c ≠ 0) (
     rw [this]
     simp
 
+
+theorem atof_path (threshold : Nat) (s : List Nat) (h0 : ∀ c ∈ s, c ≠ 0) (hm : matchesNumber s = true)
+    (hslow : (doValidate2 s).2 = true ∨ threshold ≤ s.length) :
+    toDoubleT threshold s = toDoubleSpec s := atof_path_K false threshold s h0 hm hslow
 
 end XalanModel.C18
